@@ -2,6 +2,7 @@ import collections.abc
 from collections.abc import Mapping, Set
 from contextlib import AbstractContextManager, contextmanager, nullcontext
 from dataclasses import dataclass, replace
+from keyword import iskeyword
 from typing import Any, Callable, Optional
 
 from ...code_tools.cascade_namespace import BuiltinCascadeNamespace, CascadeNamespace
@@ -327,7 +328,10 @@ class BuiltinModelLoaderGen(ModelLoaderGen):
 
                 value = state.v_field(field)
                 if param.kind == ParamKind.KW_ONLY or has_skipped_params:
-                    constructor_builder(f"{param.name}={value},")
+                    if iskeyword(param.name):  # e.g. TypedDict key `from`
+                        constructor_builder(f"**{{{param.name!r}: {value}}},")
+                    else:
+                        constructor_builder(f"{param.name}={value},")
                 elif param.kind == ParamKind.POS_ONLY and has_skipped_params:
                     raise ValueError(
                         "Can not generate consistent constructor call,"
